@@ -556,6 +556,47 @@ def cases(tier, seed):
             yield {"ctx": "if_noelse", "e": ("bin", ">", e, X.num(0.5)), "approx": True}
             for g in ("SIN", "EXP", "SQR"):
                 yield {"ctx": "assign", "e": ("fn", g, [("fn", "ABS", [e])]), "approx": True}
+    # 4c. long flat chains (8-20 operators without parentheses): precedence and associativity over many terms
+    rng2 = random.Random(424243 * (seed + 1))
+    leaves = NUM_LEAVES + [X.num(2), X.num(3), X.num(0.5), ("hex", 16, "10")]
+    prec = {"OR": 1, "AND": 2, "=": 3, "<": 3, ">": 3, "<>": 3, "+": 4, "-": 4, "*": 5, "/": 5}
+
+    def tree_of(terms, ops):
+        # the tree Color BASIC builds from the flat text: precedence climbing over the token list
+        k = len(ops)
+
+        def climb(pos, minp):
+            left = terms[pos]
+            while pos < k and prec[ops[pos]] >= minp:
+                op = ops[pos]
+                right, npos = climb(pos + 1, prec[op] + 1)
+                left = ("bin", op, left, right)
+                pos = npos
+            return left, pos
+
+        return climb(0, 0)[0]
+
+    for i in range(120 if tier == "quick" else 6000):
+        if i % 3:
+            k = rng2.randint(8, 20)
+            ops = [rng2.choice(["+", "-", "*", "/"]) for _ in range(k)]
+            terms = [rng2.choice(leaves) for _ in range(k + 1)]
+            yield {"ctx": "assign" if i % 4 else "for_limit", "e": tree_of(terms, ops), "approx": True}
+        else:
+            # IF condition: comparisons of arithmetic chains joined by AND / OR, no parentheses at all
+            ops, terms = [], [rng2.choice(leaves)]
+            for c in range(rng2.randint(2, 5)):
+                if c:
+                    ops.append(rng2.choice(["AND", "OR"]))
+                    terms.append(rng2.choice(leaves))
+                for side in range(2):
+                    for _ in range(rng2.randint(0, 3)):
+                        ops.append(rng2.choice(["+", "-", "*", "/"]))
+                        terms.append(rng2.choice(leaves))
+                    if side == 0:
+                        ops.append(rng2.choice(["=", "<", ">", "<>"]))
+                        terms.append(rng2.choice(leaves))
+            yield {"ctx": "if_noelse" if i % 2 else "if_else", "e": tree_of(terms, ops), "approx": True}
     # 5. seeded random trees beyond the bound
     nrand = 1500 if tier == "quick" else 150000
     rng = random.Random(99991 * (seed + 1))
